@@ -183,6 +183,12 @@ func vfRunTransfer(t *testing.T, spec *vfSpec, res *vfRes, o vfXferOpts) *vfXfer
 		} else {
 			w.waitWriters(writerLimit)
 			time.Sleep(time.Duration(spec.x("linger_ms", 300)) * time.Millisecond)
+			// scripted blackouts are part of the fault prefix: the link counts as healed only after the last one
+			for _, b := range spec.Link.Blackouts {
+				if end := sim.estabAt + time.Duration(b[2])*time.Microsecond; sim.net.now() < end {
+					time.Sleep(end - sim.net.now())
+				}
+			}
 			sim.net.healNow()
 		}
 		res.count("heal_outstanding", int64(sim.snap(0).InflightN+sim.snap(1).InflightN+sim.snap(0).PendingN+sim.snap(1).PendingN))
